@@ -165,7 +165,7 @@ cfg["C21"] = {
 }
 
 ops_q = P("VerifReallocOp", "fault=8") + P("VerifRemoveOp", "fault=14", "fault=20,nodes=2,sched=lazy") + P("VerifDissociateOp", "fault=12", "fault=20,nodes=2,sched=lazy")
-create_op = P("VerifCreateOp", "fault=24,count=2", "fault=24,count=2,sched=lazy") + P("VerifReplaceOp", "fault=16", "fault=16,sched=lazy")
+create_op = P("VerifCreateOp", "fault=24,count=2", "fault=24,count=2,sched=lazy") + P("VerifReplaceOp", "fault=16", "fault=16,sched=lazy") + P("VerifReplaceTwo", "fault=30", "fault=30,sched=lazy")
 sched_t = P("VerifRemoveOp", "fault=20,nodes=2,sched=lazy,choices=4", "fault=20,nodes=2,sched=eager,choices=4") + P("VerifDissociateOp", "fault=20,nodes=2,sched=lazy,choices=4") + P("VerifCreateOp", "fault=24,count=2,sched=lazy,choices=2")
 sched_text = ("Goroutines and ants pool tasks are scheduled cooperatively (a goroutine gives up control only where it blocks - channel receive, select, WaitGroup.Wait, Mutex.Lock - where it spawns, and where it ends) under TWO fixed policies: eager (a spawned goroutine runs at once; harness arguments without sched=) and lazy (the spawning side runs on until it blocks, then the oldest runnable goroutine; sched=lazy); "
               "in the thorough tier the first 2-4 scheduling points with several runnable goroutines are additionally SYMBOLIC choices (choices=n: one explored path per candidate). Sends never block (channels are FIFO queues)")
@@ -185,7 +185,7 @@ cfg["C10"] = {
 cfg["C11"] = {
     "title": "A failed cluster operation leaves no lasting effect", "design_ref": "DESIGN.md §4 C11",
     "runs": [{"dir": CAL, "inline_go": True, "quick": ops_q + node_ops + create_op, "thorough": ops_q + node_ops + create_op + sched_t + P("VerifCreateOp", "fault=30,count=3"), "samples": 4}],
-    "bounds": "ReallocResource, RemoveWorkload, DissociateWorkload, CreateWorkload, ReplaceWorkload, AddNode, RemoveNode, SetNode through the exported API on a ledger of 2 workloads / 1-2 nodes; every position of the single failing step (<=24 positions); eager and lazy schedule (thorough: plus 2-4 symbolic scheduling choices)",
+    "bounds": "ReallocResource, RemoveWorkload, DissociateWorkload, CreateWorkload, ReplaceWorkload (one workload, and two workloads of different pods in one call), AddNode, RemoveNode, SetNode through the exported API on a ledger of 2 workloads / 1-2 nodes; every position of the single failing step (<=24 positions); eager and lazy schedule (thorough: plus 2-4 symbolic scheduling choices)",
     "outside": " failures of compensating steps; operations running concurrently with each other and preemption between two blocking points; values returned through the `return v, f()` idiom (evaluation order unspecified by the language, go/ssa and gc differ)",
     "assumptions": ledger_assume,
 }
@@ -264,8 +264,8 @@ cfg["C14"] = {
 
 cfg["C30"] = {
     "title": "Run-and-wait workloads are always cleaned up", "design_ref": "DESIGN.md §7.2 / §7.5",
-    "runs": [{"dir": CAL, "inline_go": True, "quick": P("VerifRunAndWait", "count=2", "count=2,sched=lazy"), "thorough": P("VerifRunAndWait", "count=2", "count=3", "count=2,sched=lazy", "count=2,sched=lazy,choices=4", "count=2,sched=eager,choices=3"), "samples": 4}],
-    "bounds": "Calcium.RunAndWait (no stdin) through the exported API on top of the real CreateWorkload pipeline: AUTO over two nodes with 0-2 deployable slots (symbolic), count 1-2 (thorough 3), exit code in {0,1,255}; engine outcomes: logs and wait succeed, or the n-th fetch-logs call fails, or the n-th wait call fails. Cooperative scheduling under the eager and the lazy policy (thorough: plus 3-4 symbolic scheduling choices; sends never block: channels are FIFO queues); log streams end immediately",
+    "runs": [{"dir": CAL, "inline_go": True, "quick": P("VerifRunAndWait", "count=2", "count=2,sched=lazy", "count=1,cancel=1"), "thorough": P("VerifRunAndWait", "count=2", "count=3", "count=2,sched=lazy", "count=2,sched=lazy,choices=4", "count=2,sched=eager,choices=3", "count=1,cancel=1", "count=2,cancel=1"), "samples": 4}],
+    "bounds": "Calcium.RunAndWait (no stdin) through the exported API on top of the real CreateWorkload pipeline: AUTO over two nodes with 0-2 deployable slots (symbolic), count 1-2 (thorough 3), exit code in {0,1,255}; engine outcomes: logs and wait succeed, or the n-th fetch-logs call fails, or the n-th wait call fails; with cancel=1 the caller's context may end while a workload is being waited for (store reads under a dead context fail like a real client's). Cooperative scheduling under the eager and the lazy policy (thorough: plus 3-4 symbolic scheduling choices; sends never block: channels are FIFO queues); log streams end immediately",
     "outside": "preemption between two blocking points and schedules beyond the stated ones; stdin/attach mode; log content forwarding (bufio scanning of real output); failures of the removal itself (the property quantifies over log/wait outcomes); the RPC layer on top (rpc.go)",
     "assumptions": ledger_assume,
 }
